@@ -31,7 +31,7 @@ ASSUMPTIONS = [
     "max_rows=0/None mean 'default' by the signature, so only max_rows >= 1 is judged for the row-count clause",
     "column names are single-line strings; ListOfDicts keys are strings",
 ]
-REACH = {"quick": {"cls:vector": 1000, "cls:frame": 2000, "cls:geojson": 500, "cls:lod": 800, "layout-parsed": 2000, "rows-cut": 300, "print_-compared": 1500,
+REACH = {"quick": {"cls:vector": 900, "cls:frame": 2000, "cls:geojson": 500, "cls:lod": 800, "layout-parsed": 2000, "rows-cut": 300, "print_-compared": 1500,
                    "wide-chars": 500, "zero-row-frame": 100, "geojson:null-geometry": 150, "multi-block": 300, "grouped-frame": 200}}
 
 WIDE = ["日本語", "ｗｉｄｅ", "é", "\U0001F600", "漢", "ö", "áb"]
